@@ -229,23 +229,3 @@ def collinear_quadratic_length_is_finite(c, axis):
     sc = max(1.0, max(abs(z) for z in P))
     c.ensures('finite-and-non-negative', math.isfinite(L) and L >= 0)
     c.ensures('close-to-the-chord-sum-of-a-fine-subdivision', math.isfinite(L) and abs(L - ch) <= 5e-3 * max(ch, 1e-9) + 1e-9 * sc)
-
-
-@contract('C06', 'path.QuadraticBezier.length', params=[{'_no_bounded': True}], budget=240, tier='thorough',
-          note='differential contract: d/dt1 of the executed closed form is the speed |B\'(t1)| and the closed form vanishes for t1 == t0; '
-               'that these two facts characterise the arc length is the fundamental theorem of calculus (assumed)')
-def quadratic_length_closed_form_is_an_antiderivative_of_the_speed(c):
-    P, seg = mkseg(c, 3)
-    t0, t1 = c.real('t0'), c.real('t1')
-    a = P[0] - 2 * P[1] + P[2]
-    b = 2 * (P[1] - P[0])
-    # generic position: not (nearly) linear and control points not collinear
-    c.assume(ops.le(c.const('1e-24'), ops.norm2(a)))
-    c.assume(ops.ne(ops.cross(a, b), 0))
-    s = c.callm(seg, 'length', t0, t1)
-    ds = c.ddt(s, t1)
-    speed2 = ops.norm2(bez.dbern(P, t1, 1))
-    c.ensures('d/dt1-length(t0,t1)>=0', ops.le(0, ds))
-    c.ensures('(d/dt1-length(t0,t1))^2==|B\'(t1)|^2', ops.eq(ds * ds, speed2))
-    s00 = c.callm(seg, 'length', t0, t0)
-    c.ensures('length(t0,t0)==0', ops.eq(s00, 0))
